@@ -144,6 +144,8 @@ def frame_predicate(c):
 
 
 def predicate(c):
+    if c["op"] == "wa":
+        return None             # the acknowledgement clause is C01's (produce_version_cases); here only the model diff
     if c["op"] == "wf":
         return frame_predicate(c)
     if c["op"] in ("pg", "pgc", "pgr"):
@@ -321,6 +323,51 @@ def frame_sweep_cases(ctx):
                 samples=[c["line"][:200] + " | " + c["go"][:100] for c in cases[:2] + cases[-2:]])
 
 
+def produce_version_cases(ctx):
+    """The `wv` sweep alone, for checks/c01.py (writer_common): kafka.Writer and Client.Produce at
+    EVERY Produce API version v0..v8 through the real kafka.Transport against the wire-level fake
+    broker of harness/cmd/c05 (ApiVersions advertises Produce max = v; produce responses laid out
+    by hand per version).  Judged by C01's clause: a batch the broker applied and acknowledged
+    (error code 0) is reported as success, exactly one produce request per batch reached the
+    broker (no re-send without a lost acknowledgement), each message once in the broker's log.
+    Returns dict(evaluations, distinct_nontrivial, hist, failures, samples)."""
+    gobin = L.go_build("c05")
+    level = str(ctx.scale(1, 2))
+    rc, out, err, dt = L.sh([gobin, "-seed", str(ctx.seed), "-n", "0", "-big", "0", "-pg", "0", "-bigrd", "0", "-pgr", "0",
+                             "-cc", "0", "-ww", "0", "-vi", "0", "-fs", "0", "-av", level, "-only", "wa"], timeout=600)
+    if rc != 0:
+        raise L.Fail("correspondence", "harness cmd/c05 crashed (produce version sweep)", (out[-1500:] + err[-2500:]))
+    cases = [c for c in L.parse_cases(out) if c["op"] == "wa"]
+    failures, seen = [], set()
+    for c in cases:
+        c["line"] = c["id"] + " " + c["op"] + " " + c["args"]
+        a = c["args"].split(" ")
+        v = hx(a[0])
+        path = "kafka.Writer.WriteMessages" if a[1] == "w" else "Client.Produce"
+        g = dict(x.split("=", 1) for x in c["go"].split(" ") if "=" in x)
+        problems = []
+        if g.get("res") != "nil":
+            problems.append(path + " reported a failure although the broker applied the batch and answered error code 0")
+        if g.get("reqs") != "1":
+            problems.append("the batch was sent %s times (hex) without a lost acknowledgement" % g.get("reqs", "?"))
+        if g.get("log") != "once":
+            problems.append("the messages are not exactly once in the broker's log (%s)" % g.get("log", "?"))
+        for what in problems:
+            text = "C01 acknowledged produce at API version %d: %s" % (v, what)
+            if text in seen:
+                continue
+            seen.add(text)
+            failures.append(dict(layer="property", key=None, what=text,
+                                 input=dict(case=c["line"], go=c["go"], feats=c["feats"], produce_versions=level),
+                                 detail=json.dumps(dict(case=c["line"], go=c["go"], feats=c["feats"]))))
+    if not cases:
+        failures.append(dict(layer="correspondence", key=None, what="C01 acknowledged produce at API version v: the harness produced no case",
+                             input=None, detail=(out[-300:] + err[-300:])))
+    ev, dn, hist = L.coverage_counts(cases, trivial_feats=("",))
+    return dict(evaluations=ev, distinct_nontrivial=dn, hist=hist, failures=failures,
+                samples=[c["line"] + " | " + c["go"] for c in cases[:2] + cases[-2:]])
+
+
 def search(ctx, violations):
     ctx.seed += 1000
     ctx.tier = "thorough"
@@ -343,6 +390,12 @@ def replay(ctx, payload):
         return 1
     head = inp["case"].split(" ", 1)[1]
     print("replay case:", inp["case"][:400], "...")
+    if inp.get("produce_versions"):
+        pv = produce_version_cases(ctx)
+        print("produce version sweep now:", pv["evaluations"], "cases,", len(pv["failures"]), "failures")
+        for f in pv["failures"][:5]:
+            print("  ", f["layer"], f["what"])
+        return 1 if pv["failures"] else 0
     if inp.get("frame_sweep"):
         fs = frame_sweep_cases(ctx)
         print("frame sweep now:", fs["evaluations"], "cases,", len(fs["failures"]), "failures")
